@@ -16,15 +16,16 @@ nodes are the type's `node_identifiers()`, the queried edge ids (`EdgeIndexable`
 A field is `none` where the type does not implement the trait (`na` in the driver's format).
 
 Identifier codes are the harness's (`NId`, `EId` in harness/src/c06.rs): a node is its raw id, a pair edge id
-`(a, b)` is `a * 100 + b` (`min * 100 + max` for the undirected pair-id types), weights are integers.
+`(a, b)` is `pcode a b` (`pcode min max` for the undirected pair-id types; `Visit.pcode` is injective on all pairs),
+weights are integers.
 Core Lean only.
 -/
 namespace PetgraphModel.Visit
 open PetgraphModel
 
-/-- `EId for (A, A)`: `a * 100 + b`, canonicalised to `min * 100 + max` when `sym` -/
+/-- `EId for (A, A)`: `pcode a b`, canonicalised to `pcode min max` when `sym` -/
 def pairCode (sym : Bool) (a b : Nat) : Nat :=
-  if sym && decide (b < a) then b * 100 + a else a * 100 + b
+  if sym && decide (b < a) then pcode b a else pcode a b
 
 /-- one row per query node -/
 def rowsOver {α : Type} (qs : List Nat) (f : Nat → List α) : Rows α := qs.map fun q => (q, f q)
@@ -84,7 +85,7 @@ C06 (wave 2) — the TABLE of `visit`-trait answers of `MatrixGraph<N, E, S, Ty,
 `harness/src/c06.rs` (`table!`, runner `matrix_like!`) fills it from the real crate.
 
 Query nodes `qs` = `node_identifiers()` (the live ids; there can be removed ids below `node_bound`),
-`sym = !directed` (pair edge ids of the undirected kind are canonicalised `min * 100 + max`), no queried
+`sym = !directed` (pair edge ids of the undirected kind are canonicalised `pcode min max`), no queried
 edge ids (`EdgeIndexable` is not implemented: `eb`/`eix` = `none`), not `NodeCompactIndexable`.
 `IntoNeighborsDirected` / `IntoEdgesDirected` exist only for `MatrixGraph<_, _, _, Directed, _, _>`
 (src/matrix_graph.rs:1392, 1431): the four directed fields are `none` for the undirected kind.
@@ -225,7 +226,7 @@ C06 (wave 2) — the TABLE of `visit`-trait answers of `adj::List<E, Ix>` comput
 the real crate and as the trait impls of /repo/src/adj.rs:422-664 compute it.
 
 Identifier codes (harness `NId`, `EId for adj::EdgeIndex<u32>`, c06.rs:68-79): a node is its raw index, an
-edge index `EdgeIndex { from, successor_index }` is `from * 100 + successor_index`; the node weight `()` is `0`.
+edge index `EdgeIndex { from, successor_index }` is `pcode from successor_index`; the node weight `()` is `0`.
 `adj::List` is always directed; it implements neither `EdgeIndexable` nor the `*Directed` traits
 (`expectedNa "list"` in Driver/C06.lean).  Core Lean only.
 -/
@@ -233,8 +234,8 @@ edge index `EdgeIndex { from, successor_index }` is `from * 100 + successor_inde
 namespace ALView
 open PetgraphModel.AdjM
 
-/-- `EId for adj::EdgeIndex<u32>` (harness/src/c06.rs:68-79): `from * 100 + successor_index` -/
-def eidCode (e : EIx) : Nat := e.1 * 100 + e.2
+/-- `EId for adj::EdgeIndex<u32>` (harness/src/c06.rs): `pcode from successor_index` -/
+def eidCode (e : EIx) : Nat := pcode e.1 e.2
 
 /-- an `EdgeReference` (`EdgeRef for EdgeReference`, src/adj.rs:80-96): `id() = self.id`,
 `source() = self.id.from`, `target() = self.edge.suc`, `weight() = &self.edge.weight` -/
